@@ -2,7 +2,7 @@
 import re as _re
 from mirlib import *
 from rules import psc
-from rules.psc import sym, strip, facts_at, implies_lt, macro_of
+from rules.psc import sym, strip, facts_at, implies_lt, macro_of, guards, no_redef_between, mlocals
 
 META = {
     'title': 'Every failure is an error value: no input crashes or hangs the interpreter',
@@ -681,6 +681,25 @@ def _contradictory(atoms):
     return False
 
 
+def otherwise_infeasible(F, site):
+    """a panic that sits on the `otherwise` edge of a switch (`_ => unreachable!()` of an inner match) is unreachable when a
+    dominating switch on the same value already restricted it to values the inner switch lists explicitly (the outer arm is an
+    or-pattern of exactly those variants)"""
+    fn = site['f']
+    gs = guards(fn, site['block'])
+    for i, (c2, vs2, d2, tb2, t2) in enumerate(gs):
+        if vs2 != [None]:
+            continue
+        listed = {v for v, _ in t2['targets']}
+        for (c1, vs1, d1, tb1, t1) in gs:
+            if d1 == d2 or None in vs1 or not vs1:
+                continue
+            if strip(c1) == strip(c2) and set(vs1) <= listed and d1 in fn.dominators().get(d2, ()):
+                if all(no_redef_between(fn, l, tb1, d2, d1) for l in mlocals(c1)):
+                    return 'D1p', 'the catch-all arm is unreachable: an enclosing match already restricted the value to %d variants, all of which the inner match lists' % len(vs1)
+    return None
+
+
 def assertion_infeasible(F, site):
     """a failing assert!/debug_assert!: every path that reaches the panic has taken two tag tests on the same object that
     cannot both hold (the asserted tag was established by an earlier match arm or test), so the panic is unreachable"""
@@ -901,6 +920,54 @@ def countdown_index(F, site):
     if not _shared_root(fn, cont):
         return None
     return 'D2', 'index counts down from len() of the same (shared, unchanged) container and is decremented before every use'
+
+
+def const_range_on_array(F, site):
+    """`arr[..n]` / `arr[a..]` on a fixed-size array `[T; N]` where every value the bound can have is a constant not above N"""
+    fn = site['f']
+    t = site['term']
+    n = site['what']
+    if not (site['kind'] == 'call' and psc.is_index_call(n) and 'core::array::' in n and len(t['args']) == 2):
+        return None
+    l0 = op_base_local(t['args'][0])
+    ty = fn.local_ty(l0) if l0 is not None else ''
+    m = _re.search(r"; (\d+)(?:_usize)?\]", ty or "")
+    if not m:
+        return None
+    N = int(m.group(1))
+    d = fn.def_rvalue(t['args'][1])
+    if not (d and d[0] == 'assign' and d[3]['k'] == 'aggregate' and str(d[3].get('adt', '')).split('::')[-1] in ('RangeTo', 'RangeFrom', 'RangeToInclusive') and len(d[3]['ops']) == 1):
+        return None
+    incl = str(d[3].get('adt', '')).endswith('RangeToInclusive')
+    op = d[3]['ops'][0]
+    vals = []
+    if op.get('k') == 'const' and op.get('int') is not None:
+        vals = [op['int']]
+    else:
+        l = op_base_local(op)
+        seen = set()
+        work = [l]
+        while work:
+            x = work.pop()
+            if x is None or x in seen:
+                continue
+            seen.add(x)
+            ds = fn.defs().get(x, [])
+            if not ds:
+                return None
+            for dd in ds:
+                if dd[0] != 'assign':
+                    return None
+                rv = dd[3]
+                if rv['k'] == 'use' and rv['op'].get('k') == 'const' and rv['op'].get('int') is not None:
+                    vals.append(rv['op']['int'])
+                elif rv['k'] == 'use' and rv['op'].get('k') in ('copy', 'move') and not rv['op']['place']['proj']:
+                    work.append(rv['op']['place']['local'])
+                else:
+                    return None
+    if vals and all(0 <= v + (1 if incl else 0) <= N for v in vals):
+        return 'D2', 'the bound of the range is one of the constants %s on every path, the array has %d elements' % (sorted(set(vals)), N)
+    return None
 
 
 def countup_index(F, site):
@@ -1687,7 +1754,7 @@ def verdict_for(ctx, s, rows=None, cache=None):
                 verdict = (ok, 'D3[%s]: %s' % (rule, why))
                 break
     if verdict is None or not verdict[0]:
-        pd = path_discharge(F, s) or countdown_index(F, s) or countup_index(F, s) or assertion_infeasible(F, s)
+        pd = path_discharge(F, s) or countdown_index(F, s) or countup_index(F, s) or assertion_infeasible(F, s) or otherwise_infeasible(F, s) or const_range_on_array(F, s)
         if pd:
             verdict = (True, '%s: %s' % pd)
     if verdict is None or not verdict[0]:
